@@ -423,6 +423,7 @@ void VfRun::oracle_open(Handle &H, long ret) {
 void VfRun::link_table(Handle &H, const char *site, std::initializer_list<const char *> P, bool force) {
   if (inexact() || (H.io_dirty && !force) || H.part || !H.open || !H.seekable) return;
   g_stats.inc(std::string("probe.link_table_checked_at_") + site);
+  if (sr.nlinks >= 8) g_stats.inc("probe.link_table_checked_on_a_chain_of_8_or_more_links");
   long k = ov_streams(H.vf);
   check(k == sr.nlinks, P, "open", "link-count", fmt("ov_streams=%ld want %d", k, sr.nlinks), {{"got", std::to_string(k)}, {"want", std::to_string(sr.nlinks)}});
   if (k != sr.nlinks) return;
